@@ -131,8 +131,13 @@ def _child(fn, payload, wfd: int, stackfile: str, timeout: float):
         while view:
             n = os.write(wfd, view[: 1 << 16])
             view = view[n:]
-    except BaseException:
+    except BaseException as exc:
         code = 3
+        try:  # say why (a record that cannot be serialised is a harness bug, not a library result)
+            os.write(wfd, json.dumps({"_harness": "child_exception", "error": "while returning the record: " + repr(exc)[:500]}).encode())
+            code = 0
+        except BaseException:
+            pass
     finally:
         try:
             faulthandler.cancel_dump_traceback_later()
